@@ -91,13 +91,14 @@ LEVEL_NOTE = ("Relative tolerance 3e-6 / 3e-5 (first / second order; 1e-4 / 1e-3
               "order test alone); trusts torch.linalg.matrix_exp and its autograd formulas.")
 RULE = ("seeded sampling over family x method configuration x parameter mode x requires-grad subset x cotangent pattern x direction x grid "
         "x order, plus directed classes (graph-recording backward w.r.t. ts for every adaptive configuration; one tensor supplied in two "
-        "places; linear systems with inaccurate forward and tight backward); non-trivial = non-zero cotangent, >= 1 leaf with a non-zero "
+        "places; linear systems with inaccurate forward and tight backward; a repeated or a single requested time); non-trivial = non-zero cotangent, >= 1 leaf with a non-zero "
         "reference gradient, the right-hand side was evaluated during the backward pass (spy count) and the gradients were compared "
         "leaf by leaf")
 MIN_NONTRIVIAL = {"quick": 500, "thorough": 5000}
 ASSUMPTIONS = [
     "float64 only; state size <= 6, <= 9 requested times for adaptive methods, time span 0.3..1.5, |t0| <= 1, strictly monotone grids "
-    "(smallest/largest spacing >= 0.03 for adaptive, >= 1/3 for fixed-step methods)",
+    "(smallest/largest spacing >= 0.03 for adaptive, >= 1/3 for fixed-step methods) except in the directed class 'degengrid' "
+    "(one requested time given twice; a single requested time), which is run with adaptive methods only",
     "linear systems: A = -0.3 I + 0.7 N(0,1)/sqrt(n), scale 0.5..1.2, modulation 1 + b cos(w t) with b in 0.3..0.8, w in 1..3",
     "logistic: y0/K in 0.2..0.9 (no blow-up in either time direction)",
     "adaptive integrators are run with atol=rtol=1e-10 (rk45) or 1e-9 (rk23); comparison tolerance 3e-6 / 3e-5 (backward at 1e-9: 1e-5 / 1e-4; with rk23: 1e-4 / 1e-3) "
@@ -116,7 +117,9 @@ SHARDS_PER_JOB = 2
 _REQ = {"first_nograph_path": 150, "first_graph_path": 300, "second_order_compared": 150, "ts_grad_compared": 300,
         "ts_second_adaptive": 60, "tuple_state": 40, "decreasing_ts": 200, "objparams_grad_compared": 250, "unused_checked": 120,
         "bck_different": 200, "rhs_calls_backward": 100000, "rhs_calls_backward2": 30000, "bcklin_compared": 60,
-        "refinement_tests": 200, "cot_one_time": 250, "aliased_compared": 40, "derived_leaves": 80}
+        "refinement_tests": 200, "cot_one_time": 250, "aliased_compared": 40, "derived_leaves": 80,
+        "degenerate_grid_compared:lead": 8, "degenerate_grid_compared:inner": 8, "degenerate_grid_compared:trail": 8,
+        "degenerate_grid_compared:single": 8}
 REQUIRED_COUNTERS = {"quick": dict(_REQ), "thorough": {k: 8 * v for k, v in _REQ.items()}}
 
 
@@ -195,6 +198,18 @@ def cases(seed, tier):
                  pmode=rng.choice(["explicit", "mixed_nn", "mixed_em"]), conf=rng.choice(["rk45", "rk45", "rk45_btol", "rk23_b45"]),
                  nt=rng.choice([2, 3, 4]), order=2 if i % 3 == 2 else 1)
         d["cg"] = (i // 3) % 2 if d["order"] == 1 else 1
+        out.append(d)
+    # ---- degenerate grids: a requested time given twice (first, inner or last interval of zero length), a single requested time
+    n_dg = 48 if quick else 480
+    for i in range(n_dg):
+        rng = random.Random(sub_seed(seed, "c08g", i))
+        d = _common(rng, {"group": "degengrid", "seed": sub_seed(seed, "c08gs", i)})
+        d.update(conf=rng.choice(["rk45", "rk45", "rk45_btol", "rk23_b45", "rk45_default_method"]), order=2 if i % 3 == 2 else 1,
+                 repeat=["lead", "inner", "trail", "single"][i % 4])
+        d["nt"] = 1 if d["repeat"] == "single" else rng.choice([4, 5] if d["repeat"] == "inner" or d["order"] == 1 else [3, 4])
+        d["cg"] = (i // 3) % 2 if d["order"] == 1 else 1
+        if d["repeat"] == "single":
+            d["rg_y0"] = True
         out.append(d)
     # ---- bck_options honoured: linear systems, inaccurate forward, tight backward; dL/dy0 only
     n_bl = 96 if quick else 960
@@ -278,7 +293,9 @@ def build_problem(desc):
     nt = desc["nt"]
     T = rng.uniform(0.3, 1.5)
     t0 = rng.uniform(-1.0, 1.0)
-    if nt == 2:
+    if nt == 1:
+        frac = [0.0]
+    elif nt == 2:
         frac = [0.0, 1.0]
     elif desc.get("ragged"):
         if desc["group"] == "fixed":
@@ -292,6 +309,14 @@ def build_problem(desc):
         frac[-1] = 1.0
     else:
         frac = [i / (nt - 1) for i in range(nt)]
+    rep = desc.get("repeat")          # a requested time given twice (zero-length interval)
+    if rep == "lead" and nt >= 3:
+        frac[1] = frac[0]
+    elif rep == "trail" and nt >= 3:
+        frac[-2] = frac[-1]
+    elif rep == "inner" and nt >= 4:
+        k_rep = 1 + rng.randrange(nt - 3)
+        frac[k_rep + 1] = frac[k_rep]
     sgn = -1.0 if desc.get("decreasing") else 1.0
     tsv = torch.tensor([t0 + sgn * T * f for f in frac], dtype=DT)
     P.T = T
@@ -636,23 +661,22 @@ def differentiate(obs, desc, P, conf, ts_used, cot_sel, stride, order, cg, tag):
         sr = sum((x * R).sum() for x, R in zip(gr, Rs) if x.requires_grad)
         out.second_possible = isinstance(sr, torch.Tensor) and sr.requires_grad
         if out.second_possible:
-            if not (isinstance(s, torch.Tensor) and s.requires_grad):
-                obs.check(False, "grad2_no_graph:%s" % tag,
-                          "first-order gradients carry no graph although the exact ones depend on the leaves")
-                out.failed = True
-                return out
-            P.phase[0] = "bwd2"
-            try:
-                with WarnLog():
-                    h = torch.autograd.grad(s, all_leaves, retain_graph=True, allow_unused=True)
-            except HarnessBug:
-                raise
-            except Exception as e:
-                obs.exc_violation("backward2:%s:%s" % (tag, "ts" if desc["rg_ts"] else "nots"), e)
-                out.failed = True
-                return out
-            finally:
-                P.phase[0] = "fwd"
+            if isinstance(s, torch.Tensor) and s.requires_grad:
+                P.phase[0] = "bwd2"
+                try:
+                    with WarnLog():
+                        h = torch.autograd.grad(s, all_leaves, retain_graph=True, allow_unused=True)
+                except HarnessBug:
+                    raise
+                except Exception as e:
+                    obs.exc_violation("backward2:%s:%s" % (tag, "ts" if desc["rg_ts"] else "nots"), e)
+                    out.failed = True
+                    return out
+                finally:
+                    P.phase[0] = "fwd"
+            else:
+                # the returned first-order gradients are constants: their derivative is zero (compared with the exact one below)
+                h = [None] * len(all_leaves)
             hr = torch.autograd.grad(sr, leaves, retain_graph=True, allow_unused=True)
             hr = _zeros_if_none(hr, leaves)
             out.h_unused = h[len(leaves):]
@@ -719,8 +743,9 @@ def run_case(desc):
         obs.count("conf_%s" % desc["conf"])
         obs.count("pmode_%s" % desc["pmode"])
 
-    if group in ("adaptive", "adaptive_ts_graph", "bcklin", "alias"):
-        gname = {"adaptive": "adaptive", "adaptive_ts_graph": "adaptive", "bcklin": "bcklin", "alias": "aliased"}[group]
+    if group in ("adaptive", "adaptive_ts_graph", "bcklin", "alias", "degengrid"):
+        gname = {"adaptive": "adaptive", "adaptive_ts_graph": "adaptive", "bcklin": "bcklin", "alias": "aliased",
+                 "degengrid": "degengrid"}[group]
         tag = gname + ":" + fb
         out = differentiate(obs, desc, P, conf, P.ts, cot_sel, 1, order, cg, tag)
         if out.failed:
@@ -746,6 +771,8 @@ def run_case(desc):
                     obs.count("ts_second_adaptive")
             if group == "alias":
                 obs.count("aliased_compared")
+            if group == "degengrid":
+                obs.count("degenerate_grid_compared:%s" % desc["repeat"])
                 obs.note(errs2=out.errs2)
         _check_unused(obs, desc, P, out, gname)
         obs.note(worst_ratio=worst[0], rhs_calls=dict(P.cnt))
